@@ -193,13 +193,13 @@ func (dec *tomlDecoder) decodeNode(tomlNode *toml.Node) (*CandidateNode, error) 
 
 }
 
-func (dec *tomlDecoder) Decode() (*CandidateNode, error) {
+func (dec *tomlDecoder) Decode() (result *CandidateNode, deferredError error) {
 	if dec.finished {
 		return nil, io.EOF
 	}
 	//
-	// toml library likes to panic
-	var deferredError error
+	// toml library likes to panic; deferredError is a named result so that the
+	// recovered panic actually reaches the caller
 	defer func() { //catch or finally
 		if r := recover(); r != nil {
 			var ok bool
